@@ -452,8 +452,8 @@ pub fn inputs_c20(r: &mut Rng, n: usize, _tier: &str, out: &mut dyn Write) {
                 writeln!(out, "to_ns {} {}:{}", g, dstr(t), ts2).unwrap()
             }
             _ => {
-                let t = epoch_total(r, ts);
-                writeln!(out, "dur_in_year {}:{}", dstr(t), ts).unwrap()
+                let t = epoch_total(r, ts).abs();
+                writeln!(out, "towrt {}:{}", dstr(t), ts).unwrap()
             }
         }
     }
